@@ -68,11 +68,11 @@ func (c c36Case) eventString() string {
 }
 
 type c36Divergence struct {
-	Signature string   `json:"signature"`
-	What      string   `json:"what"`
-	Step      int      `json:"step"` // index of the event after which it was observed (-1 = right after the call)
-	Consequence string `json:"consequence,omitempty"`
-	Trace     []string `json:"trace"`
+	Signature   string   `json:"signature"`
+	What        string   `json:"what"`
+	Step        int      `json:"step"` // index of the event after which it was observed (-1 = right after the call)
+	Consequence string   `json:"consequence,omitempty"`
+	Trace       []string `json:"trace"`
 }
 
 // ---- recording database: captures the *sql.Tx of every root transaction ----
@@ -116,10 +116,10 @@ func (d *c36RecDB) BeginTx(ctx context.Context, opts *sql.TxOptions) (*database.
 	}
 	return tx, err
 }
-func (d *c36RecDB) PingContext(ctx context.Context) error     { return d.inner.PingContext(ctx) }
-func (d *c36RecDB) Close() error                              { return d.inner.Close() }
-func (d *c36RecDB) GetDatabaseType() database.DatabaseType    { return d.inner.GetDatabaseType() }
-func (d *c36RecDB) UnwrapDatabase() database.Database         { return d.inner }
+func (d *c36RecDB) PingContext(ctx context.Context) error  { return d.inner.PingContext(ctx) }
+func (d *c36RecDB) Close() error                           { return d.inner.Close() }
+func (d *c36RecDB) GetDatabaseType() database.DatabaseType { return d.inner.GetDatabaseType() }
+func (d *c36RecDB) UnwrapDatabase() database.Database      { return d.inner }
 
 // txLive asks the transaction itself whether it has been finalized.
 func c36TxLive(tx *sql.Tx) (bool, error) {
@@ -243,12 +243,12 @@ func (rd *c36Reader) bytesOK() bool {
 }
 
 type c36Obs struct {
-	readsAfterPeerClose int
-	closeErrors         int
+	readsAfterPeerClose      int
+	closeErrors              int
 	consequentReaderFailures int
-	events              map[string]int
-	order               string // observed global order (concurrent mode)
-	overlaps            int
+	events                   map[string]int
+	order                    string // observed global order (concurrent mode)
+	overlaps                 int
 }
 
 // opener abstracts "the call that returns tx-bound readers".
@@ -623,33 +623,20 @@ func (h *c36Store) runConcurrent(cs c36Case, o *c36Opened, obs *c36Obs, trace *[
 	div := func(sig, what string) *c36Divergence {
 		return &c36Divergence{Signature: sig, What: what, Step: len(all), Trace: append([]string(nil), (*trace)...)}
 	}
-	// classification helper: replay the close counter in observed completion order
-	earlyByDouble := false
-	{
-		remaining := cs.Readers
-		closed := map[int]bool{}
-		sawCA := false
+	// classification helper: the known double-Close defect can only be the cause
+	// of a failure if some repeated Close had started before the failing read ended
+	doubleCloseBefore := func(end int64) bool {
 		for _, a := range all {
-			if a.e != "c" && a.e != "ca" {
-				continue
-			}
-			if a.e == "ca" {
-				sawCA = true
-			}
-			closed[a.r] = true
-			remaining--
-			if remaining == 0 {
-				if len(closed) < cs.Readers && sawCA {
-					earlyByDouble = true
-				}
-				break
+			if a.e == "ca" && a.start < end {
+				return true
 			}
 		}
+		return false
 	}
 	for _, a := range all {
 		if a.err != nil {
 			sig := "concurrent-reader-failed-" + c36ErrClass(a.err)
-			if earlyByDouble {
+			if doubleCloseBefore(a.end) && errors.Is(a.err, sql.ErrTxDone) {
 				sig = "double-close-releases-early"
 			}
 			return div(sig, fmt.Sprintf("reader %d returned %v on %s while its peers were being closed concurrently", a.r, a.err, a.e)), nil
@@ -778,7 +765,7 @@ func scriptsString(s [][]string) string {
 
 func runC36(tier, replay string) {
 	r := vkit.Begin("C36", "exploration", tier)
-	r.SetRule("a case = (mode, reader count, global event sequence); modes: multi-range GetObject on a metadata storage over the SQL part store (readers bound to the read transaction), the same on a filesystem part store (tx-free, contrast), and database.WithTxReadClosers with fake readers that touch the transaction on every Read. For 1-2 readers ALL interleavings of ALL per-reader scripts {" + scriptsString(c36ScriptsFull) + "} are run, for 3 readers all interleavings of the scripts {" + scriptsString(c36Scripts3) + "} (thorough: plus rs·ra·c); 4 readers are sampled from the full script set; thorough adds goroutine-per-reader runs. distinct = distinct (mode, event sequence[, observed concurrent order])")
+	r.SetRule("a case = (mode, reader count, global event sequence); modes: multi-range GetObject on a metadata storage over the SQL part store (readers bound to the read transaction), the same on a filesystem part store (tx-free, contrast), and database.WithTxReadClosers with fake readers that touch the transaction on every Read. For 1-2 readers ALL interleavings of ALL per-reader scripts {" + scriptsString(c36ScriptsFull) + "} are run, for 3 readers all interleavings of the scripts {" + scriptsString(c36Scripts3) + "} (thorough: plus rs·ra·c for the direct WithTxReadClosers mode); 4 readers are sampled from the full script set; thorough adds goroutine-per-reader runs. distinct = distinct (mode, event sequence[, observed concurrent order])")
 	r.Assume("the liveness of the transaction is read from the *sql.Tx itself (SELECT 1 -> sql.ErrTxDone) through a recording database.Database spliced below the storage; database/sql is trusted to report ErrTxDone exactly for finalized transactions")
 	r.Assume("rs reads 40% of the reader's slice, ra reads to EOF; reads on an already closed reader are not generated (the statement does not cover them)")
 
@@ -801,7 +788,12 @@ func runC36(tier, replay string) {
 
 	obs := &c36Obs{events: map[string]int{}}
 	failuresBySig := map[string]int{}
+	nExec := 0
 	exec := func(cs c36Case) *c36Divergence {
+		nExec++
+		if nExec%5000 == 0 {
+			fmt.Fprintf(os.Stderr, "c36 progress: %d cases, %.0fs\n", nExec, time.Since(r.Start).Seconds())
+		}
 		h := storeFor(cs.Mode)
 		d, err := h.run(cs, obs)
 		sig := cs.Mode + "|" + fmt.Sprint(cs.Readers) + "|" + cs.eventString()
@@ -910,8 +902,15 @@ func runC36(tier, replay string) {
 		if n == 3 {
 			scripts = scripts3
 		}
-		seqs := c36Enumerate(n, scripts)
 		for _, mode := range []string{"getobject-sql", "direct"} {
+			sc := scripts
+			if n == 3 && mode == "getobject-sql" {
+				// the storage-level run keeps the 5-script set in both tiers (thorough runs under
+				// the race detector, where a GetObject costs several ms); the larger set is
+				// enumerated against WithTxReadClosers directly
+				sc = c36Scripts3
+			}
+			seqs := c36Enumerate(n, sc)
 			for _, ev := range seqs {
 				exec(c36Case{Mode: mode, Readers: n, Events: ev})
 			}
@@ -919,12 +918,13 @@ func runC36(tier, replay string) {
 		}
 	}
 	r.SetExtra("exhaustive_block", map[string]any{
-		"exhaustive":     true,
-		"what":           "all interleavings of all per-reader script assignments, every reader closed at least once at the end",
-		"scripts_1_2":    scriptsString(c36ScriptsFull),
-		"scripts_3":      scriptsString(scripts3),
-		"sequences":      exh,
-		"state_checks":   "transaction liveness + release-hook count after every event",
+		"exhaustive":       true,
+		"what":             "all interleavings of all per-reader script assignments, every reader closed at least once at the end",
+		"scripts_1_2":      scriptsString(c36ScriptsFull),
+		"scripts_3":        scriptsString(c36Scripts3),
+		"scripts_3_direct": scriptsString(scripts3),
+		"sequences":        exh,
+		"state_checks":     "transaction liveness + release-hook count after every event",
 	})
 	// (2) direct: fn error / no readers / failing inner Close
 	exec(c36Case{Mode: "direct", Readers: 0})
@@ -941,7 +941,7 @@ func runC36(tier, replay string) {
 		}
 	}
 	// (4) four readers, sampled
-	n4 := r.N(400, 5000)
+	n4 := r.N(400, 3000)
 	for i := 0; i < n4; i++ {
 		rg := rng.Fork(fmt.Sprintf("four-%d", i))
 		mode := "getobject-sql"
@@ -954,7 +954,7 @@ func runC36(tier, replay string) {
 	// (5) thorough: goroutine per reader (race build)
 	if r.Thorough() {
 		noCA := [][]string{{"c"}, {"rs", "c"}, {"ra", "c"}, {"rs", "ra", "c"}}
-		for i := 0; i < 3000; i++ {
+		for i := 0; i < 2000; i++ {
 			rg := rng.Fork(fmt.Sprintf("conc-%d", i))
 			scripts := c36ScriptsFull
 			if i%2 == 0 {
